@@ -139,11 +139,24 @@ impl Completions {
         // Process the remaining completions events that are ready.
         // NOTE: we explitly enter here to ensure we get the latests completions
         // from the kernel, poll doesn't guarantee that.
-        if let Err(err) = shared.enter(1, libc::IORING_ENTER_GETEVENTS, Some(Duration::ZERO)) {
-            log::warn!("error getting last completions: {err}");
-        }
-        if let Err(err) = self.poll(shared, Some(Duration::ZERO)) {
-            log::warn!("error processing last completions: {err}");
+        // NOTE: there can be more completions than fit in the completion
+        // queue, in which case the kernel holds on to the rest until we've made
+        // space. So we need to keep going until there are no more completions
+        // left, otherwise we leak the state of the operations for which the
+        // (final) completion is never processed.
+        loop {
+            if let Err(err) = shared.enter(1, libc::IORING_ENTER_GETEVENTS, Some(Duration::ZERO)) {
+                log::warn!("error getting last completions: {err}");
+                break;
+            }
+            let head = unsafe { (&*self.entries_head.as_ptr()).load(Ordering::Relaxed) };
+            if head == load_kernel_shared(self.entries_tail) {
+                break; // Processed all completions.
+            }
+            if let Err(err) = self.poll(shared, Some(Duration::ZERO)) {
+                log::warn!("error processing last completions: {err}");
+                break;
+            }
         }
     }
 }
